@@ -3,7 +3,7 @@
 
 S3  lake build PnVerif.Props.C15 + c15drv, axiom audit, forbidden-construct grep
 S4  stream `unit` : the real static check_start_count_stride() (reached by #include of the scratch
-                    tree's generated var_getput.c) against Access.checkSCS (64-bit arithmetic) and
+                    tree's generated var_getput.c) against Scs.checkSCS (64-bit arithmetic) and
                     Spec.InBounds on exhaustive small-scope tuples + random 3-D / large shapes
     stream `api`  : the public put/get API (var1/vara/vars/varm/varn/iput/bput/flexible, collective
                     and independent, CDF-1/2/5, strict and relaxed) on small files; the whole file is
@@ -16,7 +16,7 @@ from common import *
 
 PROP = 'C15'
 EINVALCOORDS, EEDGE, ESTRIDE, ENEGATIVECNT, EIOMISMATCH = -40, -57, -58, -210, -209
-LEAN_FILES = ['PnVerif/Model/Access.lean', 'PnVerif/Spec/InBounds.lean', 'PnVerif/Lemmas/AccessLemmas.lean',
+LEAN_FILES = ['PnVerif/Model/Scs.lean', 'PnVerif/Spec/InBounds.lean', 'PnVerif/Lemmas/ScsLemmas.lean',
               'PnVerif/Props/C15.lean', 'Driver/C15.lean']
 XSZ = {1: 1, 3: 2, 4: 4, 5: 4, 6: 8, 7: 1, 8: 2, 9: 4, 10: 8, 11: 8}
 SIG_F15 = 'check_EEDGE-stride-product-overflow-accepted'
@@ -606,9 +606,9 @@ def run_check(tier, seed):
     local_findings(V)
     rng = SplitMix64(seed * 104729 + 15)
     V.assumptions = [
-        'Model/Access.lean is a hand transcription of check_EINVALCOORDS / check_EEDGE / check_start_count_stride (src/dispatchers/var_getput.m4); it is tied to the source by running the real static functions on the same tuples on every run',
-        'the byte-level theorems speak about the row-major element addressing of Model/Access.lean (elemOffset/footprint); that it is the addressing the library performs (ncmpio_filetype.c, MPI-IO file views) is established only by the API stream: whole-file images after every request',
-        'signed overflow in C is undefined behaviour; the 64-bit model (Access.c64) assumes two\'s-complement wrap-around, which is what gcc -O1 emits here; outside the F15 witnesses every generated value is below 2^33 in magnitude',
+        'Model/Scs.lean is a hand transcription of check_EINVALCOORDS / check_EEDGE / check_start_count_stride (src/dispatchers/var_getput.m4); it is tied to the source by running the real static functions on the same tuples on every run',
+        'the byte-level theorems speak about the row-major element addressing of Model/Scs.lean (elemOffset/footprint); that it is the addressing the library performs (ncmpio_filetype.c, MPI-IO file views) is established only by the API stream: whole-file images after every request',
+        'signed overflow in C is undefined behaviour; the 64-bit model (Scs.c64) assumes two\'s-complement wrap-around, which is what gcc -O1 emits here; outside the F15 witnesses every generated value is below 2^33 in magnitude',
         'guards of the theorems: ndims > 0 (checked by every caller), extents >= 0, a stride vector exists only in the vars/varm forms',
         'single process (the multi-rank behaviour of rejected collective requests belongs to C08, defect F2)',
     ]
